@@ -296,3 +296,21 @@ package state
 //@   ensures every_slot_logged: result == nil ==> (forall a felt.Felt, k felt.Felt :: in(diff.StorageDiffs, a) && in(diff.StorageDiffs[a], k) ==> setin(storageLog, slot(a, k)))
 //@   ensures every_nonce_logged: result == nil ==> (forall a felt.Felt :: in(diff.Nonces, a) ==> setin(nonceLog, a))
 //@   ensures every_class_hash_logged: result == nil ==> (forall a felt.Felt :: in(diff.ReplacedClasses, a) || in(diff.DeployedContracts, a) ==> setin(classLog, a))
+
+// ---- the storage trie behind a contract's storage root (C01) -----------------------------------------
+// A contract's storage root is the hash of ITS storage trie as the database holds it under the state
+// root this State was opened at: the trie is resolved from the database for this state root and this
+// address - whatever the contract record claims about its storage root - and at most once per object.
+//@ func (*StateDB).ContractStorageTrie
+//@   trusted
+//@   logged as OpenStorageTrie
+//@ func (*stateObject).getStorageTrie
+//@   props C01
+//@   arith int
+//@   nosafe
+//@   requires s != nil && s.state != nil
+//@   modifies s.storageTrie
+//@   assigns calls_OpenStorageTrie, arg_OpenStorageTrie_s, arg_OpenStorageTrie_stateComm, arg_OpenStorageTrie_owner
+//@   callsite ContractStorageTrie@*: of_this_state_root_and_this_address: $0 == s.state.db && $1 == &s.state.initRoot && $2 == &s.addr
+//@   ensures loaded_trie_reused: old(s.storageTrie) != nil ==> result0 == old(s.storageTrie) && result1 == nil && calls_OpenStorageTrie == old(calls_OpenStorageTrie)
+//@   ensures resolved_from_the_database: old(s.storageTrie) == nil ==> calls_OpenStorageTrie == old(calls_OpenStorageTrie) + 1 && (result1 == nil ==> s.storageTrie == result0)
